@@ -48,6 +48,9 @@ struct EcSession {
                         report_fault(rr, h, gc.fi, "ec_init_tables");
                         return;
                 }
+                // gf_vect_mad is documented to take "tables generated from coding coefficients in ec_init_tables()", 32*vec bytes per row.
+                // madtbl 1: exactly that (the dispatched ec_init_tables above); 0: the classic 32-byte tables of ec_init_tables_base
+                bool madtbl = plan.geti("madtbl") != 0;
                 // classic 32-byte tables for gf_vect_mad (documented: tables generated from the coefficients, 32*vec bytes per row)
                 Slot *st32 = g_arena.alloc((size_t) 32 * k * rows + (toff ? 32 : 0), PLACE_END, "gftbls32", fill + 2, 1);
                 if (!st32)
@@ -76,6 +79,31 @@ struct EcSession {
                                         lane = (int) ((q >> 4) & 1); // strict alternation zero / non-zero
                                 uint8_t v = (uint8_t) r.u64();
                                 srcdata[i][q] = lane == 0 ? 0 : lane == 1 ? (uint8_t) (v | 1) : lane == 2 ? 0xff : v;
+                        }
+                        // two more shapes (values 4, 5 of the 6 - plans written before them keep their meaning below 4):
+                        // sparse deltas - a zero background with small groups of bytes (0x80, 0x01, 0xff or random) 1-32 apart, what an
+                        // update of a mostly unchanged block looks like; and arrays of small signed 64-bit integers in which x and -x
+                        // often stand next to each other (word-wise sums and xors of neighbours vanish on such data, bytes do not)
+                        int shape6 = (int) ((uint64_t) plan.geti("srcshape") % 6);
+                        if (shape6 == 4) {
+                                std::fill(srcdata[i].begin(), srcdata[i].end(), 0);
+                                static const int strides[] = { 1, 2, 4, 8, 16, 32 };
+                                static const uint8_t vals[] = { 0x80, 0x01, 0xff };
+                                for (size_t q = r.below(40); q < srcdata[i].size(); q += 1 + r.below(200)) {
+                                        int st = r.pick(strides), n = (int) (1 + r.below(3));
+                                        uint8_t v = r.chance(1, 4) ? (uint8_t) (r.u64() | 1) : r.pick(vals);
+                                        for (int g = 0; g < n && q + (size_t) g * st < srcdata[i].size(); g++)
+                                                srcdata[i][q + (size_t) g * st] = v;
+                                }
+                        } else if (shape6 == 5) {
+                                uint64_t prev = 0;
+                                for (size_t q = 0; q + 8 <= srcdata[i].size(); q += 8) {
+                                        uint64_t v = r.chance(1, 4) && prev ? (uint64_t) 0 - prev : r.chance(1, 3) ? 0 : (r.chance(1, 2) ? r.below(1000) : r.u64() >> (8 * r.below(8)));
+                                        if (r.chance(1, 8))
+                                                v = (uint64_t) 0 - v;
+                                        memcpy(&srcdata[i][q], &v, 8);
+                                        prev = v;
+                                }
                         }
                         memcpy(src[i]->data, srcdata[i].data(), len);
                 }
@@ -127,7 +155,7 @@ struct EcSession {
                                 }
                         } else {
                                 for (int j = 0; j < rows; j++)
-                                        if (GUARDED(gc, gf_vect_mad(len, k, s, st32->data + toff + (size_t) 32 * k * j, src[s]->data, par[j]->data))) {
+                                        if (GUARDED(gc, gf_vect_mad(len, k, s, (madtbl ? st->data : st32->data) + toff + (size_t) 32 * k * j, src[s]->data, par[j]->data))) {
                                                 report_fault(rr, h, gc.fi, strf("gf_vect_mad(len %d, vec %d, vec_i %d) row %d", len, k, s, j).c_str());
                                                 return;
                                         }
@@ -149,7 +177,7 @@ struct EcSession {
                                         int b = 0;
                                         while (par[j]->data[b] == model[j][b])
                                                 b++;
-                                        rr.fail("C13.update_wrong", strf("after delivery %u (source %d, count %d, %s): parity row %d byte %d is %02x, GF(2^8) reference %02x (k %d rows %d len %d)", delivered, s, count[s], how == 0 ? "ec_encode_data_update" : "gf_vect_mad", j, b, par[j]->data[b], model[j][b], k, rows, len));
+                                        rr.fail(madtbl && how != 0 ? "C13.mad_dispatched_tables" : "C13.update_wrong", strf("after delivery %u (source %d, count %d, %s%s): parity row %d byte %d is %02x, GF(2^8) reference %02x (k %d rows %d len %d)", delivered, s, count[s], how == 0 ? "ec_encode_data_update" : "gf_vect_mad", madtbl && how != 0 ? " with the tables ec_init_tables() produced" : "", j, b, par[j]->data[b], model[j][b], k, rows, len));
                                         return;
                                 }
                                 ph = hash_bytes(par[j]->data, len, ph);
@@ -240,7 +268,7 @@ static Json gen_ec(Rng &r0, const std::string &focus, int tier)
         p.set("prof", "ec").set("focus", focus);
         int k = (int) r.below(32);
         static const int lens[] = { 0, 1, 15, 16, 17, 31, 32, 33, 63, 64, 65, 95, 127, 128, 129, 191, 255, 256, 257, 511, 512, 513, 1000, 4096, 4097 };
-        p.set("k", k).set("rows", (int) r.below(14)).set("len", r.chance(1, 2) ? r.pick(lens) : (int) r.logsize(8999)).set("apply", (int) r.below(3)).set("matrix", (int) r.below(3)).set("s", r.u64() >> 16).set("srcshape", r.chance(1, 2) ? 0 : (int) (1 + r.below(3))).set("toff", r.chance(2, 3) ? 0 : (int) (r.chance(1, 2) ? 8 * (1 + r.below(3)) : 1 + r.below(31)));
+        p.set("k", k).set("rows", (int) r.below(14)).set("len", r.chance(1, 2) ? r.pick(lens) : (int) r.logsize(8999)).set("apply", (int) r.below(3)).set("matrix", (int) r.below(3)).set("s", r.u64() >> 16).set("srcshape", r.chance(1, 2) ? 0 : (int) (1 + r.below(5))).set("toff", r.chance(2, 3) ? 0 : (int) (r.chance(1, 2) ? 8 * (1 + r.below(3)) : 1 + r.below(31)));
         if (r.chance(1, 20)) { // block lengths around and beyond 2^16 and 2^17 (16-bit counters, unrolled-loop remainders far from the start); few sources
                 static const int longs[] = { 65535, 65536, 65537, 65599, 65600, 70000, 98304, 131071, 131072, 131073 };
                 k = (int) r.below(7);
@@ -270,6 +298,14 @@ static Json gen_ec(Rng &r0, const std::string &focus, int tier)
         mem.set("place", (int) r.below(2)).set("fill", r.u64() >> 24).set("regs", r.chance(1, 3) ? 0 : r.u64() >> 24).set("skip", r.chance(1, 2) ? 0 : (int) r.below(4096));
         p.set("mem", mem);
         maybe_swarm_cpu(r, p, 1, 4);
+        // the documented pairing ec_init_tables() + gf_vect_mad(): while finding F18 is open only under a simulated CPU without GFNI
+        // (there ec_init_tables resolves to the 32-byte form)
+        {
+                bool open18 = std::find(g_avoid.begin(), g_avoid.end(), "F18") != g_avoid.end();
+                const Json *cpu = p.find("cpu");
+                bool nogfni = cpu && !(((uint64_t) cpu->geti("l7_ecx") >> 8) & 1);
+                p.set("madtbl", (int) ((!open18 || nogfni) && r.chance(1, 3)));
+        }
         (void) tier;
         return p;
 }
